@@ -912,10 +912,12 @@ class _FunctionAnalysis:
                         vals |= set(self.elements(av))
                     elif f.attr == "update":
                         # dict.update shares the argument's values, set.update its elements; the receiver's type is
-                        # not tracked, so both
+                        # not tracked in general, so both - unless the receiver is a local that is only ever bound to
+                        # a set (set(), {..}, a set comprehension): set.update(d) iterates d, it never takes its values
                         vals |= set(self.elements(av))
-                        for c in self._shallow_copy(av):
-                            vals |= set(c[1]) if c[0] == "cont" else {c}
+                        if not (isinstance(f.value, ast.Name) and f.value.id in self._set_typed_locals()):
+                            for c in self._shallow_copy(av):
+                                vals |= set(c[1]) if c[0] == "cont" else {c}
                     else:
                         vals |= set(av)
                 for v in kwvals.values():
@@ -1045,6 +1047,26 @@ class _FunctionAnalysis:
             return frozenset()
         self.summ.unresolved += 1
         return frozenset()
+
+    def _set_typed_locals(self):
+        """Local names every binding of which is a set construction."""
+        if not hasattr(self, "_set_locals_cache"):
+            binds = {}
+            for st in ast.walk(self.fn.node):
+                if isinstance(st, ast.Assign):
+                    for t in st.targets:
+                        if isinstance(t, ast.Name):
+                            v = st.value
+                            is_set = isinstance(v, (ast.Set, ast.SetComp)) or (isinstance(v, ast.Call) and getattr(v.func, "id", None) in ("set", "frozenset"))
+                            binds.setdefault(t.id, []).append(is_set)
+                elif isinstance(st, (ast.For, ast.AugAssign, ast.With, ast.comprehension, ast.NamedExpr)):
+                    tgt = getattr(st, "target", None)
+                    for x in ast.walk(tgt) if tgt is not None else ():
+                        if isinstance(x, ast.Name):
+                            binds.setdefault(x.id, []).append(isinstance(st, ast.AugAssign) and isinstance(st.op, (ast.BitOr, ast.BitAnd, ast.Sub)))
+            params = set(self.fn.all_params)
+            self._set_locals_cache = {k for k, v in binds.items() if v and all(v) and k not in params}
+        return self._set_locals_cache
 
     def _const_strings(self, e):
         """String values a name can hold when it is a loop variable over, or bound to elements of, a literal
